@@ -14,6 +14,18 @@ NOTES = {
  "C22-a": "caught first through an anchor count; rule rewritten on emptiness-test semantics",
  "C29-a": "caught through anchor counts (state representation replaced): representation-dependent, see §8.4",
  "C37-a": "caught through an exact-count anchor (more_recent_than call in the Upsert arm)",
+ "C02-a": "initially MISSED (length test on a truncated `len as u8`); rule rewritten as a bound proof on the full usize length",
+ "C05-b": "initially MISSED (start_shutdown moved to a shared tail also reached from the Full arm); added: Full never shuts the receiver down",
+ "C08-a": "caught first only through a call-count floor; added: disconnect(None) applies start_shutdown to every connection",
+ "C10-b": "initially MISSED (short batch frame reaches get_u16); added: decoder totality as a bound proof over (is_batch, length)",
+ "C13-a": "reported as `U+002F accepted` by the code-point partition evaluation",
+ "C16-a": "told apart from its behaviour-preserving near twin (benign C16-d): flag evaluated against the whole-batch relation",
+ "C28-a": "initially MISSED (report recorded before the stickiness decision); added: recorded report must be final",
+ "C36-b": "initially MISSED (query key found by searching the labels); added: key label is the one directly below the origin",
+ "C38-a": "initially MISSED (dht_cache not invalidated); added: publish invalidates every cache layer resolve() reads",
+ "C42-b": "caught first through an anchor count; report now names the 0-RTT paths that skip the hooks",
+ "C35-a": "caught through the literal-true write count of the `yielded` flag (representation-dependent)",
+ "C17-a": "caught through the anchored emptiness test on the pending batch's contents",
 }
 print("| seed | change (author's summary, shortened) | reported by (rule:key) | notes |")
 print("|------|------|------|------|")
